@@ -222,6 +222,12 @@ let split_at_order (st : string array) : string array * n list =
 let order_str (o : n list) : string =
   "ord [" ^ String.concat " " (List.map (fun k -> string_of_int (int_of_n k)) o) ^ "]"
 
+(* the observed iteration order is an INPUT of the container functions; the hypothesis OrderOK of their theorems is tested
+   here with the model's own decision procedure (Container.order_okb, sound by order_okb_sound): an order that is not a
+   duplicate-free listing of exactly the bound keys is answered with a marker no implementation output can equal *)
+let ord_chk (g : gr) (o : n list) : string =
+  if order_okb keqb g o then order_str o else "ord-is-not-a-listing-of-the-members " ^ order_str o
+
 let keys_of (h : hp) (l : nat list) : string = String.concat " " (List.map (key_str h) l)
 
 let graph_snap (directed : bool) (h : hp) (g : gr) : string =
@@ -513,36 +519,36 @@ and run_case_model (oc : out_channel) (c : case) : unit =
           let (g', b) = g_insert keqb !h (getg gi) u in
           setg gi g'; Printf.sprintf "ok %d" (b2i b)
       | "gsnap" -> "gsnap " ^ graph_snap directed !h (getg (ios st.(1)))
-      | "gvec" | "giter" -> Printf.sprintf "%s res %s" (order_str order) (keys_of !h (g_iter keqb (getg (ios st.(1))) order))
-      | "gorph" -> Printf.sprintf "%s res %s" (order_str order) (keys_of !h (g_orphans keqb !h (getg (ios st.(1))) order))
-      | "groots" -> Printf.sprintf "%s res %s" (order_str order) (keys_of !h (g_roots keqb !h (getg (ios st.(1))) order))
-      | "gleaves" -> Printf.sprintf "%s res %s" (order_str order) (keys_of !h (g_leaves keqb !h (getg (ios st.(1))) order))
+      | "gvec" | "giter" -> Printf.sprintf "%s res %s" (ord_chk (getg (ios st.(1))) order) (keys_of !h (g_iter keqb (getg (ios st.(1))) order))
+      | "gorph" -> Printf.sprintf "%s res %s" (ord_chk (getg (ios st.(1))) order) (keys_of !h (g_orphans keqb !h (getg (ios st.(1))) order))
+      | "groots" -> Printf.sprintf "%s res %s" (ord_chk (getg (ios st.(1))) order) (keys_of !h (g_roots keqb !h (getg (ios st.(1))) order))
+      | "gleaves" -> Printf.sprintf "%s res %s" (ord_chk (getg (ios st.(1))) order) (keys_of !h (g_leaves keqb !h (getg (ios st.(1))) order))
       | "gscc" ->
           (match scc keqb big_fuel !h (getg (ios st.(1))) order with
            | Some comps ->
-               Printf.sprintf "%s comps%s" (order_str order)
+               Printf.sprintf "%s comps%s" (ord_chk (getg (ios st.(1))) order)
                  (String.concat "" (List.map (fun c -> " [" ^ keys_of !h c ^ "]") comps))
            | None -> "fuel")
       | "gdot" ->
-          Printf.sprintf "%s dot %s" (order_str order)
+          Printf.sprintf "%s dot %s" (ord_chk (getg (ios st.(1))) order)
             (dot_tokens !h (g_to_dot keqb directed !h (getg (ios st.(1))) order) 0 0 0)
       | "gdota" ->
           let ga = ios st.(2) and na = ios st.(3) and ea = ios st.(4) in
           let nattr u = (na = 1) || (na = 2 && (match keyof !h u with Some k -> int_of_n k mod 2 = 0 | None -> false)) in
           let eattr _ _ e = (ea = 1) || (ea = 2 && int_of_n e mod 2 = 0) in
-          Printf.sprintf "%s dot %s" (order_str order)
+          Printf.sprintf "%s dot %s" (ord_chk (getg (ios st.(1))) order)
             (dot_tokens !h (g_to_dot_attr keqb directed !h (getg (ios st.(1))) order
                               (nat_of_int (if ga = 1 then 2 else 0)) nattr eattr) ga na ea)
       | "gser" ->
           let (ns, es) = decompose keqb !h (getg (ios st.(1))) order in
-          Printf.sprintf "%s doc [%s] [%s]" (order_str order)
+          Printf.sprintf "%s doc [%s] [%s]" (ord_chk (getg (ios st.(1))) order)
             (String.concat "" (List.map (fun (k, v) -> Printf.sprintf "[%s %s]" (nstr k) (zstr v)) ns))
             (String.concat "" (List.map (fun ((a, b), e) -> Printf.sprintf "[%s %s %s]" (nstr a) (nstr b) (nstr e)) es))
       | "grt" ->
           let (ns, es) = decompose keqb !h (getg (ios st.(1))) order in
           (match rebuild keqb ns es with
-           | DeOk (h2, g2) -> Printf.sprintf "%s de ok %s" (order_str order) (graph_snap directed h2 g2)
-           | DeMissing _ -> Printf.sprintf "%s de err" (order_str order))
+           | DeOk (h2, g2) -> Printf.sprintf "%s de ok %s" (ord_chk (getg (ios st.(1))) order) (graph_snap directed h2 g2)
+           | DeMissing _ -> Printf.sprintf "%s de err" (ord_chk (getg (ios st.(1))) order))
       | "gdebytes" -> "exercise-only"
       | "xenc" ->
           (* integer encoding of the whole heap; compared with the same encoding computed by vm_compute inside Coq
@@ -667,7 +673,7 @@ and run_case_model (oc : out_channel) (c : case) : unit =
            | "bfs" | "dfs" | "pmin" | "pmax" ->
                let k = (match algo with "bfs" -> KBfs | "dfs" -> KDfs | "pmin" -> KPfsMin | _ -> KPfsMax) in
                (match what with
-                | "find" -> sres (search_find keqb cb Z.leb k d big_fuel !h cb0 root target)
+                | "find" -> sres (search_find' keqb cb Z.leb k d big_fuel !h cb0 root target)
                 | "path" -> sres (search_path keqb cb Z.leb k d big_fuel !h cb0 root target false)
                 | "cycle" -> sres (search_path keqb cb Z.leb k d big_fuel !h cb0 root target true)
                 | _ -> "bad-what")
